@@ -27,12 +27,15 @@ MinR(S) == CHOOSE x \in S : \A y \in S : Leq(x, y)
 \*      is far below the property's floating point tolerance)
 Huge == 99
 IsHuge(x) == x.l = Huge
+\*      throughput 0 is an UnboundedPipe, throughput InfP a Pipe(throughput=math.inf): both never congest
+InfP == 98
+Unb(P) == P = 0 \/ P = InfP
 Limit(P, x) == IF x.l = 0 THEN P ELSE x.l
 \* rate of transfer i given the set `run` of active transfers
 Rate(P, xs, run, i) ==
   LET lim == Limit(P, xs[i])
       huge == {j \in run : IsHuge(xs[j])} IN
-  IF P = 0 THEN R(lim)                                           \* unbounded pipe: own limit (0 = infinite)
+  IF Unb(P) THEN R(IF xs[i].l = 0 THEN 0 ELSE lim)               \* unbounded pipe: own limit (0 = infinite)
   ELSE IF huge # {} THEN (IF i \in huge THEN Norm(P, Cardinality(huge)) ELSE R(0))
   ELSE LET dem == LET RECURSIVE sum(_) sum(S) == IF S = {} THEN 0 ELSE
                         LET j == CHOOSE j \in S : TRUE IN Limit(P, xs[j]) + sum(S \ {j}) IN sum(run) IN
@@ -55,7 +58,7 @@ Fluid(P, xs, t, st, rem, end, fuel) ==
            st1 == [i \in I |-> IF st[i] = "run" /\ rem1[i][1] = 0 THEN "done"
                                ELSE IF st[i] \in {"wait", "run"} /\ xs[i].c > 0 /\ R(xs[i].s + xs[i].c) = tn THEN "cancelled"
                                ELSE IF st[i] = "wait" /\ R(xs[i].s) = tn
-                                    THEN (IF xs[i].v = 0 \/ (P = 0 /\ (xs[i].l = 0 \/ IsHuge(xs[i]))) THEN "done" ELSE "run")
+                                    THEN (IF xs[i].v = 0 \/ (Unb(P) /\ (xs[i].l = 0 \/ IsHuge(xs[i]))) THEN "done" ELSE "run")
                                ELSE st[i]]
            end1 == [i \in I |-> IF st1[i] # st[i] /\ st1[i] \in {"done", "cancelled"} THEN tn ELSE end[i]] IN
        Fluid(P, xs, tn, st1, rem1, end1, fuel - 1)
